@@ -345,6 +345,12 @@ class PyvalColorizer:
                 self._trim_result(state.result, 3)
                 state.result.append(self.ELLIPSIS)
             is_complete = False
+        except RecursionError:
+            # The value is nested too deeply for this recursive walk (an expression with
+            # hundreds of operands): show what has been produced so far, then an ellipsis.
+            state.warnings.append("Cannot colorize value: maximum recursion depth exceeded.")
+            state.result.append(self.ELLIPSIS)
+            is_complete = False
         else:
             is_complete = True
         
@@ -776,10 +782,11 @@ class PyvalColorizer:
         indent = state.charpos
         
         try:
-            # Can raise ValueError, OverflowError (repetition number too large) or re.error
+            # Can raise ValueError, OverflowError (repetition number too large),
+            # RecursionError (groups nested too deeply) or re.error
             # Value of type variable "AnyStr" cannot be "Union[bytes, str]": Yes it can.
             self._colorize_re_pattern_str(pat, state) #type:ignore[type-var]
-        except (ValueError, OverflowError, sre_constants.error) as e:
+        except (ValueError, OverflowError, RecursionError, sre_constants.error) as e:
             # Make sure not to swallow control flow errors.
             # Colorize the ast.Call as any other node if the pattern parsing fails.
             state.restore(mark)
